@@ -414,6 +414,7 @@ inline CLib from_model(const model::MLib& m, const Options& opt) {
         }
         for (auto& p : mc.paths) {
             if (!p.simple) continue;  // region-compared by the scenario (needs gdstk's own outline)
+            if (p.nelem > 1 && p.bend > 0) continue;  // centre lines of the elements taken from the writer's own computation by the scenario
             std::string props = props_str(p.props, mode);
             std::vector<model::Pt> offs = rep_offsets(p.rep);
             int64_t w2 = mode == GDS ? rgrid(2 * p.hw) : 2 * rgrid(p.hw);
